@@ -31,89 +31,94 @@ def sym_insn(reg4=True):
     return symex.struct("ebpf::Insn", "Insn", (("opc", T.V("opc", 8)), ("dst", d), ("src", s), ("off", T.V("off", 16)), ("imm", T.V("imm", 32))))
 
 
-def run(rep, tier):
+def run(rep, tier, parts=("enc", "dec", "builder")):
     cx = Ctx(rep, "std")
     F = cx.F
     ev = symex.Evaluator(F)
-    ra = rep.rule("R17.a", "encoder lanes == layout table", floor=16)
-    exp = layout()
-    for meth in ("ebpf::Insn::to_array", "ebpf::Insn::to_vec"):
-        if cx.roles.api(meth) is None:
-            continue
-        outs = ev.run_fn(meth, [sym_insn()]) or []
-        arr = None
-        if len(outs) == 1:
-            v = outs[0][0]
-            if isinstance(v, tuple) and v and v[0] == "array":
-                arr = v[1]
-            elif isinstance(v, tuple) and v and v[0] == "obj":
-                # vec![..] -> from a boxed array: find the array literal in the effects
-                for e in outs[0][1].effects:
-                    for a in (e[2] if e[0] == "call" else ()):
-                        if isinstance(a, tuple) and a and a[0] == "array" and len(a[1]) == 8:
-                            arr = a[1]
-        for k in range(8):
-            got = T.lanes(arr[k]) if arr and len(arr) == 8 and isinstance(arr[k], tuple) else None
-            rep.ob(ra, "%s/byte%d" % (meth.split("::")[-1], k), got == exp[k],
-                   "%s byte %d" % (meth, k), expected=T.lanes_str(exp[k]), found=T.lanes_str(got) if got else "not an 8-byte array literal",
-                   sample=(k == 1))
-    rb = rep.rule("R17.b", "decoder lanes == inverse of the layout table at byte offset 8*idx", floor=5)
-    prog = ("obj", "PROG", "&[u8]")
-    idx = T.V("idx", 64)
-    evd = symex.Evaluator(F, models={"ebpf::get_insn": None})
-    evd.models = {}
-    import symex as sx
-    saved = sx.MODELS.pop("ebpf::get_insn", None)
-    try:
-        outs = evd.run_fn("ebpf::get_insn", [prog, idx]) or []
-    finally:
-        if saved:
-            sx.MODELS["ebpf::get_insn"] = saved
-    live = [(v, s) for v, s in outs if isinstance(v, tuple) and v and v[0] == "struct"]
-    ok1 = len(live) == 1
-    base = T.op("mul", 64, idx, T.K(64, 8))
+    if "enc" in parts:
+        ra = rep.rule("R17.a", "encoder lanes == layout table", floor=16)
+        exp = layout()
+        for meth in ("ebpf::Insn::to_array", "ebpf::Insn::to_vec"):
+            if cx.roles.api(meth) is None:
+                continue
+            outs = ev.run_fn(meth, [sym_insn()]) or []
+            arr = None
+            if len(outs) == 1:
+                v = outs[0][0]
+                if isinstance(v, tuple) and v and v[0] == "array":
+                    arr = v[1]
+                elif isinstance(v, tuple) and v and v[0] == "obj":
+                    # vec![..] -> from a boxed array: find the array literal in the effects
+                    for e in outs[0][1].effects:
+                        for a in (e[2] if e[0] == "call" else ()):
+                            if isinstance(a, tuple) and a and a[0] == "array" and len(a[1]) == 8:
+                                arr = a[1]
+            for k in range(8):
+                got = T.lanes(arr[k]) if arr and len(arr) == 8 and isinstance(arr[k], tuple) else None
+                rep.ob(ra, "%s/byte%d" % (meth.split("::")[-1], k), got == exp[k],
+                       "%s byte %d" % (meth, k), expected=T.lanes_str(exp[k]), found=T.lanes_str(got) if got else "not an 8-byte array literal",
+                       sample=(k == 1))
+    if "dec" in parts:
+        rb = rep.rule("R17.b", "decoder lanes == inverse of the layout table at byte offset 8*idx", floor=5)
+        prog = ("obj", "PROG", "&[u8]")
+        idx = T.V("idx", 64)
+        evd = symex.Evaluator(F, models={"ebpf::get_insn": None})
+        evd.models = {}
+        import symex as sx
+        saved = sx.MODELS.pop("ebpf::get_insn", None)
+        try:
+            outs = evd.run_fn("ebpf::get_insn", [prog, idx]) or []
+        finally:
+            if saved:
+                sx.MODELS["ebpf::get_insn"] = saved
+        live = [(v, s) for v, s in outs if isinstance(v, tuple) and v and v[0] == "struct"]
+        ok1 = len(live) == 1
+        base = T.op("mul", 64, idx, T.K(64, 8))
 
-    def byte(k):
-        return ("term", repr(("sel", prog, T.op("add", 64, base, T.K(64, k)), 8)))
+        def byte(k):
+            return ("term", repr(("sel", prog, T.op("add", 64, base, T.K(64, k)), 8)))
 
-    want = {"opc": [(byte(0), i) for i in range(8)],
-            "dst": [(byte(1), i) for i in range(4)] + [0] * 4,
-            "src": [(byte(1), i) for i in range(4, 8)] + [0] * 4,
-            "off": [(byte(2), i) for i in range(8)] + [(byte(3), i) for i in range(8)],
-            "imm": [(byte(k), i) for k in range(4, 8) for i in range(8)]}
-    for f, w in want.items():
-        got = None
-        if ok1:
-            val = symex.sfield(live[0][0], f)
-            got = T.lanes(_norm_index(val)) if isinstance(val, tuple) else None
-        rep.ob(rb, "get_insn/%s" % f, got == w, "field %s decoded by get_insn" % f,
-               expected=T.lanes_str([(("b", ) if False else x) for x in w]) if False else _ls(w), found=_ls(got) if got else "unavailable", sample=(f == "src"))
-    # the guard of get_insn: panics exactly when (idx+1)*8 > len
-    guard = [s for v, s in outs if not (isinstance(v, tuple) and v and v[0] == "struct")]
-    rep.ob(rb, "get_insn/guard", ok1 and len(outs) == 2, "get_insn has one decoding path and one out-of-range panic path",
-           expected="2 paths", found=len(outs))
+        want = {"opc": [(byte(0), i) for i in range(8)],
+                "dst": [(byte(1), i) for i in range(4)] + [0] * 4,
+                "src": [(byte(1), i) for i in range(4, 8)] + [0] * 4,
+                "off": [(byte(2), i) for i in range(8)] + [(byte(3), i) for i in range(8)],
+                "imm": [(byte(k), i) for k in range(4, 8) for i in range(8)]}
+        for f, w in want.items():
+            got = None
+            if ok1:
+                val = symex.sfield(live[0][0], f)
+                got = T.lanes(_norm_index(val)) if isinstance(val, tuple) else None
+            rep.ob(rb, "get_insn/%s" % f, got == w, "field %s decoded by get_insn" % f,
+                   expected=T.lanes_str([(("b", ) if False else x) for x in w]) if False else _ls(w), found=_ls(got) if got else "unavailable", sample=(f == "src"))
+        # the guard of get_insn: panics exactly when (idx+1)*8 > len
+        guard = [s for v, s in outs if not (isinstance(v, tuple) and v and v[0] == "struct")]
+        rep.ob(rb, "get_insn/guard", ok1 and len(outs) == 2, "get_insn has one decoding path and one out-of-range panic path",
+               expected="2 paths", found=len(outs))
 
-    rc = rep.rule("R17.c", "instruction builder: into_bytes lanes and opcode algebra agree with the encoder", floor=1)
-    ok, found = _builder(cx, ev, exp)
-    rep.ob(rc, "into_bytes", ok, "<&I as IntoBytes>::into_bytes byte lanes", expected="layout table", found=found)
-    rd = rep.rule("R17.d", "instruction builder: for every constructor and every combination of its enum arguments the opcode byte is the ISA opcode of that instruction", floor=95)
-    _builder_opcodes(cx, rep, rd)
-    re_ = rep.rule("R17.e", "ebpf::to_insn_vec returns get_insn(prog, i) for every i in 0..len/8, in order, and nothing else", floor=1)
-    oke, founde = _decode_all(cx)
-    rep.ob(re_, "to_insn_vec", oke, "loop of ebpf::to_insn_vec", expected="counter from 0 while i*8 < len (or i < len/8); each iteration pushes get_insn(prog, i) and nothing is skipped", found=founde)
-    rf_ = rep.rule("R17.f", "every instruction type of the builder pushes exactly `self.into_bytes()` (the shared encoding), never a privately built instruction", floor=7)
-    pushes = sorted(pth for pth in F.fns if re.match(r"^insn_builder::\w+::push$", pth) and F.fns[pth].get("thir"))
-    for pth in pushes:
-        body = F.fns[pth]["thir"]["body"]
-        calls = [(callee_path(n) or "", n) for n in walk(body) if n.get("k") == "call"]
-        ib = [n for c, n in calls if c.endswith("IntoBytes>::into_bytes") or c.endswith("::into_bytes")]
-        ib_self = [n for n in ib if any(x.get("k") in ("var", "upvar") and x.get("name") == "self" for x in walk(n["args"][0]))]
-        private = [c for c, _n in calls if c.endswith("Insn::to_array") or c.endswith("Insn::to_vec")] + \
-                  [n.get("path") for n in walk(body) if n.get("k") == "adt" and str(n.get("path", "")).endswith("ebpf::Insn")]
-        sinks = [c for c, _n in calls if c.endswith("Vec<T, A>::append") or c.endswith("extend_from_slice") or c.endswith("::extend")]
-        rep.ob(rf_, pth, len(ib_self) == 1 and not private and len(sinks) == 1, "%s" % pth,
-               expected="one into_bytes() of self appended to the program, no Insn built on the side",
-               found={"into_bytes(self)": len(ib_self), "private encodings": private, "appends": len(sinks)})
+    if "builder" in parts:
+        rc = rep.rule("R17.c", "instruction builder: into_bytes lanes and opcode algebra agree with the encoder", floor=1)
+        ok, found = _builder(cx, ev, exp)
+        rep.ob(rc, "into_bytes", ok, "<&I as IntoBytes>::into_bytes byte lanes", expected="layout table", found=found)
+        rd = rep.rule("R17.d", "instruction builder: for every constructor and every combination of its enum arguments the opcode byte is the ISA opcode of that instruction", floor=95)
+        _builder_opcodes(cx, rep, rd)
+    if "dec" in parts:
+        re_ = rep.rule("R17.e", "ebpf::to_insn_vec returns get_insn(prog, i) for every i in 0..len/8, in order, and nothing else", floor=1)
+        oke, founde = _decode_all(cx)
+        rep.ob(re_, "to_insn_vec", oke, "loop of ebpf::to_insn_vec", expected="counter from 0 while i*8 < len (or i < len/8); each iteration pushes get_insn(prog, i) and nothing is skipped", found=founde)
+    if "builder" in parts:
+        rf_ = rep.rule("R17.f", "every instruction type of the builder pushes exactly `self.into_bytes()` (the shared encoding), never a privately built instruction", floor=7)
+        pushes = sorted(pth for pth in F.fns if re.match(r"^insn_builder::\w+::push$", pth) and F.fns[pth].get("thir"))
+        for pth in pushes:
+            body = F.fns[pth]["thir"]["body"]
+            calls = [(callee_path(n) or "", n) for n in walk(body) if n.get("k") == "call"]
+            ib = [n for c, n in calls if c.endswith("IntoBytes>::into_bytes") or c.endswith("::into_bytes")]
+            ib_self = [n for n in ib if any(x.get("k") in ("var", "upvar") and x.get("name") == "self" for x in walk(n["args"][0]))]
+            private = [c for c, _n in calls if c.endswith("Insn::to_array") or c.endswith("Insn::to_vec")] + \
+                      [n.get("path") for n in walk(body) if n.get("k") == "adt" and str(n.get("path", "")).endswith("ebpf::Insn")]
+            sinks = [c for c, _n in calls if c.endswith("Vec<T, A>::append") or c.endswith("extend_from_slice") or c.endswith("::extend")]
+            rep.ob(rf_, pth, len(ib_self) == 1 and not private and len(sinks) == 1, "%s" % pth,
+                   expected="one into_bytes() of self appended to the program, no Insn built on the side",
+                   found={"into_bytes(self)": len(ib_self), "private encodings": private, "appends": len(sinks)})
     rep.trust("rustc front end / typed THIR", "byteorder::LittleEndian::read_i16/read_i32 (modelled as little-endian byte lanes)")
     rep.assume("register numbers 0-15 (4-bit fields)")
 
@@ -204,6 +209,9 @@ def _ref_opcode(meth, args):
         return find(kind="end", op={"Little": "le", "Big": "be"}[a["Endian"]])
     sz = SIZE.get(a.get("MemSize"))
     if meth == "load":
+        if sz == 4:
+            return 0x00     # BPF_LD | BPF_IMM | BPF_W: the second slot of the wide load, which the assembler and the
+                            # encoder emit with opcode 0 (the only way to build that slot with the builder)
         return find(kind="lddw") if sz == 8 else None
     if meth in ("load_abs", "load_ind", "load_x", "store", "store_x"):
         return find(kind={"load_abs": "ldabs", "load_ind": "ldind", "load_x": "ldx", "store": "st", "store_x": "stx"}[meth], size=sz)
